@@ -71,14 +71,23 @@ def _gen_calc_ops(rng, n_ops):
     return ops
 
 
+def _frac(rng):
+    # half of the values come from a small pool, so that later rules re-use a
+    # value an earlier rule gave to another scope (re-grouping without a new value)
+    return rng.choice([0.2, 0.5, 0.8]) if rng.random() < 0.5 else round(rng.random(), 4)
+
+
 def _gen_lf_ops(rng, n_ops, depth=0):
     ops = []
     for _ in range(n_ops):
         r = rng.random()
         if r < 0.30:
             ops.append({"op": "rule", "par": rng.randint(0, 7), "how": rng.choice(
-                ["init", "init", "const", "bounds", "indep", "edges", "edges-const", "free"]),
-                "frac": round(rng.random(), 4), "edges": [rng.randint(0, 7) for _ in range(rng.randint(1, 3))]})
+                ["init", "init", "const", "bounds", "indep", "edges", "edges", "edges-const", "free"]),
+                "frac": _frac(rng), "edges": [rng.randint(0, 7) for _ in range(rng.randint(1, 3))]})
+        elif r < 0.34:
+            # move an edge into an existing scope of a parameter without introducing a new value
+            ops.append({"op": "regroup", "pick": rng.randint(0, 7), "edge": rng.randint(0, 7)})
         elif r < 0.42:
             ops.append({"op": "length", "edge": rng.randint(0, 7), "frac": round(rng.random(), 4),
                         "const": rng.random() < 0.25})
@@ -132,6 +141,10 @@ def gen(rng, tier, index):
         plan["ops"] = _gen_calc_ops(rng, rng.randint(4, 14 if tier == "quick" else 40))
     else:
         plan["ops"] = _gen_lf_ops(rng, rng.randint(3, 9 if tier == "quick" else 24))
+        if rng.random() < 0.5:
+            # start from a function that already has an edge-scoped parameter
+            plan["setup"].append({"op": "rule", "par": rng.randint(0, 7), "how": "edges", "frac": _frac(rng),
+                                  "edges": [rng.randint(0, 7) for _ in range(rng.randint(1, 2))]})
         # reading lnL / exporting rules may itself refresh lazily computed values and
         # hide a stale one: after some ops nothing is read
         for o in plan["ops"]:
@@ -277,6 +290,18 @@ def apply_lf_op(ctx: Ctx, op, res: RunResult, in_batch=False):
             return "skip"
         lf.set_motif_probs(mp)
         return "mprobs"
+    if name == "regroup":
+        scoped = [r for r in lf.get_param_rules()
+                  if r["par_name"] in _rate_params(lf) and ("edges" in r or "edge" in r) and not r.get("is_constant")]
+        if not scoped:
+            return "skip"
+        rule = scoped[op["pick"] % len(scoped)]
+        edges = list(rule.get("edges") or [rule["edge"]])
+        extra = ctx.edges[op["edge"] % len(ctx.edges)]
+        if extra in edges:
+            return "skip"
+        lf.set_param_rule(rule["par_name"], edges=sorted(edges + [extra]), is_independent=False, init=rule["init"])
+        return "regroup"
     if name == "time_het":
         if not _rate_params(lf):
             return "skip"
@@ -382,7 +407,7 @@ def run_lf(plan, res: RunResult):
             out = io.StringIO()
             try:
                 with contextlib.redirect_stdout(out):
-                    if name in ("rule", "length", "mprobs", "aln", "time_het"):
+                    if name in ("rule", "length", "mprobs", "aln", "time_het", "regroup"):
                         kind = apply_lf_op(ctx, op, res) or name
                     elif name == "batch":
                         kind = f"batch-{op['via']}"
